@@ -55,7 +55,10 @@ def one_case(ctx, rng, i):
     for n in ("R", "nu", "alpha"):
         if n in p0:
             p0[n].set(vary=False)
-    mode = rng.choice(["free", "free", "cp-fixed", "cp-bounded", "baseline-fixed", "cp-fixed-with-limits"])
+    modes = ["free", "cp-one-sided-limit", "cp-fixed", "cp-bounded", "free", "baseline-fixed",
+             "cp-fixed-with-limits"]
+    mode = modes[i % len(modes)]
+    rng.random()
     if mode == "cp-fixed":
         p0["contact_point"].set(value=cp, vary=False)
     elif mode == "cp-fixed-with-limits":
@@ -68,20 +71,42 @@ def one_case(ctx, rng, i):
         # corrected units with a margin far beyond any fit scatter, i.e. they never become active.
         lo, hi = min(0.0, k * cp, cp) - 5e-7, max(0.0, k * cp, cp) + 5e-7
         p0["contact_point"].set(min=lo, max=hi)
+    elif mode == "cp-one-sided-limit":
+        # a single finite limit (measured units, like the value), far from the contact point: never active
+        wlim = 0.05 * abs(cp) + 5e-8
+        if rng.random() < 0.5:
+            p0["contact_point"].set(min=cp - wlim)
+        else:
+            p0["contact_point"].set(max=cp + wlim)
+        if rng.random() < 0.4:
+            p0["contact_point"].set(value=cp, vary=False)
     elif mode == "baseline-fixed":
         p0["baseline"].set(value=truth["baseline"].value, vary=False)
+    # the same object has seen an attempt that could not be fitted (an interval holding a few samples only)
+    # with the same k before: "the initial guess is interpreted in measured units" also for the next call
+    after_failed = rng.random() < 0.25
     meta = {"model": mk, "k": k, "segment": seg, "range_type": kw["range_type"],
             "range_x": [float(v) for v in kw["range_x"]], "plateau": bool(kw.get("optimal_fit_edelta")),
             "weight_cp": float(kw["weight_cp"]), "noise": noise, "cp_true": cp, "mode": mode,
-            "cp_init": p0["contact_point"].value}
+            "cp_init": p0["contact_point"].value, "after_failed_attempt": after_failed,
+            "cp_limits": [float(p0["contact_point"].min), float(p0["contact_point"].max)]}
     out = {}
     for kk in (1.0, k):
         idnt = copy.deepcopy(idnt0)
         kw_k = copy.deepcopy(kw)
         kw_k["params_initial"] = copy.deepcopy(p0)
         kw_k["gcf_k"] = kk
+        if after_failed:
+            kw_f = copy.deepcopy(kw_k)
+            kw_f.pop("optimal_fit_edelta", None)
+            kw_f.pop("optimal_fit_num_samples", None)
+            step_ = float(np.median(np.abs(np.diff(np.asarray(idnt0["tip position"])[:50]))))
+            kw_f.update(range_type="absolute", range_x=[cp - 1.2 * step_, cp + 1.2 * step_])
+            fitlib.fit(idnt, **kw_f)
+            # ... and the caller then only changes the interval: the stored initial parameters are used
+            kw_k.pop("params_initial")
         res, rec = fitlib.fit(idnt, **kw_k)
-        out[kk] = (res, rec, idnt, kw_k["params_initial"])
+        out[kk] = (res, rec, idnt, kw_k.get("params_initial", p0))
     out["idnt0"], out["kw"] = idnt0, kw
     return meta, out, p0
 
@@ -111,6 +136,7 @@ def run(ctx):
         ctx.case({**meta, "results": [r1, rk]}, nontrivial=json.dumps(meta, sort_keys=True) if ok else None,
                  bucket=["model=" + meta["model"], "range=" + ("plateau" if meta["plateau"] else meta["range_type"]),
                          "mode=" + meta["mode"], f"k={meta['k']}", f"both-ok={bool(ok)}",
+                         f"after-failed-attempt={meta['after_failed_attempt']}",
                          f"weight={'on' if meta['weight_cp'] else 'off'}"])
         # arguments untouched (C10 flavour, needed for "guess in measured units")
         for pin in (pi1, pik):
